@@ -145,6 +145,15 @@ func variants() []*Variant {
 	for i, keys := range [][]string{{"R.Labels.Value"}, {"R.Value"}, {"R.Name", "R.List.Weight"}, {"Label.Name"}, {"R.Primary.Value"}} {
 		add(&Variant{Name: fmt.Sprintf("mapexcl%d:%s", i, strings.Join(keys, "+")), Prop: "C11", Base: "P-mapopt", Quick: i < 4, Mut: excl(keys...)})
 	}
+	for i, keys := range [][]string{{"Lf.note"}, {"Lf.hit_count"}, {"Lr.first.note", "Lf.Label"}} {
+		add(&Variant{Name: fmt.Sprintf("lowerexcl%d:%s", i, strings.Join(keys, "+")), Prop: "C11", Base: "P-lower", Quick: true, Mut: excl(keys...)})
+	}
+	add(&Variant{Name: "lowerflags:required+computed+sensitive", Prop: "C11", Base: "P-lower", Quick: true, Mut: withCfg(func(c *Config) {
+		c.RequiredFields = []string{"Lf.note"}
+		c.ComputedFields = []string{"Lf.hit_count"}
+		c.SensitiveFields = []string{"Lf.note", "Lr.items.Label"}
+		c.UseStateForUnknownByDefault = true
+	})})
 	add(&Variant{Name: "custom:validators+plan-modifiers", Prop: "C11", Base: "P-custom", Quick: true, Mut: withCfg(func(c *Config) {
 		c.Validators = map[string][]string{"Cu.C": {"UseMockValidator()"}, "Cu.Own": {"UseMockValidator()"}}
 		c.PlanModifiers = map[string][]string{"Cu.CfgC": {"github.com/hashicorp/terraform-plugin-framework/tfsdk.RequiresReplace()"}}
@@ -173,7 +182,7 @@ func variants() []*Variant {
 	add(&Variant{Name: "extra-message:P-docs", Prop: "C12", Base: "P-docs", Quick: true, Mut: extraMessage, Structs: "B"})
 	add(&Variant{Name: "extra-dep-file", Prop: "C12", Base: "P-oneof", Quick: true, Mut: ident, Extra: []*d.FileDescriptorProto{extraDepFile()}})
 	// C15: declaration order (sort off)
-	for _, b := range []string{"P-mini", "P-oneof", "P-embed", "P-nest", "P-time", "P-embed-x", "P-mapopt", "P-docs", "P-flags", "P-sorted"} {
+	for _, b := range []string{"P-mini", "P-oneof", "P-embed", "P-nest", "P-time", "P-embed-x", "P-mapopt", "P-docs", "P-flags", "P-sorted", "P-embed-2"} {
 		add(&Variant{Name: "perm-reverse:" + b, Prop: "C15", Base: b, Quick: true, Mut: permute})
 	}
 	for _, b := range []string{"P-mini", "P-multi", "P-scal-S1", "P-embed-x", "P-docs"} {
@@ -277,11 +286,12 @@ func buildVariant(v *Variant, pluginBin, out string, kl, km int) (*BuildInfo, er
 	cfgBq := qualifyForSepPackage(cfgB, modName+"/"+pkg)
 	if v.Alias {
 		// default_package_name: structs + import_path_overrides: {structs: <full import path>}
-		cfgBq = qualifyForSepPackage(cfgB, "structs")
+		// (the README's example names the struct package `types`, like the framework's own types package)
+		cfgBq = qualifyForSepPackage(cfgB, "types")
 		if cfgBq.ImportPathOverrides == nil {
 			cfgBq.ImportPathOverrides = map[string]string{}
 		}
-		cfgBq.ImportPathOverrides["structs"] = modName + "/" + pkg
+		cfgBq.ImportPathOverrides["types"] = modName + "/" + pkg
 	}
 	cfgPath := filepath.Join(out, "cfgB.yaml")
 	writeFile(cfgPath, cfgBq.yaml())
